@@ -265,6 +265,18 @@ def law_utc(run, case):
     dx, binds = _d(case)
     model = mk_dt(case['d'], 'naive' if case.get('tzkind') == 'naive'
                   else 'tzoffset')
+    try:
+        model.astimezone(dtm.timezone.utc)
+    except OverflowError:
+        # the UTC reading of this instant lies outside the years 1..9999:
+        # no datetime denotes it - whatever is returned is another instant
+        o = ev('%s.utc' % dx, **binds)
+        run.count(1, cls='utc-reading-out-of-range')
+        if o[0] == 'ok':
+            _fail(run, case, 'utc-wrong',
+                  '%s.utc = %r although the UTC reading of this instant is '
+                  'outside the representable range' % (dx, o[1]))
+        return
     got = _get(run, case, 'utc', '%s.utc' % dx, **binds)
     if got is None:
         return
@@ -691,7 +703,7 @@ def cases(draw):
                                m.second, m.microsecond, 0]
                 else:
                     c['d2'][7] = 0
-    if law == 'compare' and c['spelling'] == 'expr' and \
+    if law in ('compare', 'utc') and c['spelling'] == 'expr' and \
             draw(st.integers(0, 5)) == 0:
         # the first and the last day of the range, at offsets that put
         # their UTC reading outside it
